@@ -193,7 +193,7 @@ Proof.
     unfold chunked_body in E. cbn [map concat] in E. rewrite <- app_assoc in E. fold (chunked_body ds) in E.
     destruct d as [|a d'].
     + cbn [enc1 app] in E. eapply IH; eassumption.
-    + set (d := a :: d') in *. cbn [enc1] in E. fold d in E.
+    + set (d := a :: d') in *. change (enc1 d) with (chunk_enc d) in E.
       assert (Hd : d <> []) by discriminate.
       assert (Hh : lenN (to_hex (lenN d)) + 1 <= max_line lim) by (apply Hl; [left; reflexivity|exact Hd]).
       destruct (Nat.ltb (length x) (length (chunk_enc d))) eqn:Ec.
@@ -231,7 +231,7 @@ Proof.
     destruct f as [|f]; [lia|]. rewrite feed_loop_S.
     rewrite (step_f_done lim o _ sc infl _ evs [] (ev_eof (deliver ds evs))).
     + destruct f as [|f]; [rewrite <- E in Hf; cbn [length] in Hf; lia|]. apply feed_loop_nil.
-    + rewrite <- E. discriminate.
+    + discriminate.
     + rewrite <- E. apply chunked_body_decodes; [|lia|exact Hmt].
       intros d Hd. destruct d as [|c d']; [change (lenN (@nil N)) with 0; cbn; lia|].
       specialize (Hl _ Hd ltac:(discriminate)). lia.
